@@ -25,7 +25,9 @@ def queries():
         S(items=[F('a', 1)], where=nomatch), S(items=[F('a', 1), F('a', 2)], where=nomatch, order={'keys': [F('a', 1)], 'desc': False}, top=('LIMIT', 3)),
         S(items=[F('a', 1), ('agg', 'COUNT', 'U', ('star', None))], group=[F('a', 1)]), S(items=[('agg', 'COUNT', 'U', ('star', None))], where=nomatch),
         S(items=[F('a', 1), F('b', 2)], join=J('JOIN')), S(items=[('star', None)], join=J('INNER JOIN'), where=w), S(items=[F('a', 2), ('bNR',)], join=J('JOIN'), order={'keys': [F('a', 2)], 'desc': False}),
-        S(items=[('star', None)], except_cols=[F('a', 2)]), S(items=[('alias', F('a', 1), 'first', 'AS'), ('alias', ('cat', F('a', 1), F('a', 2)), 'both', 'as')]),
+        S(items=[('star', None)], except_cols=[F('a', 2)]), S(items=[('star', None)], except_cols=[F('a', 2)], distinct='count'), S(items=[('star', None)], except_cols=[F('a', 3), F('a', 1)], distinct='distinct', top=('LIMIT', 1)),
+        S(items=[F('a', 1), ('agg', 'COUNT', 'U', ('star', None))], group=[F('a', 1)], top=('LIMIT', 1)), S(items=[F('a', 1), ('agg', 'COUNT', 'U', ('star', None))], group=[F('a', 1)], top=('TOP', 2)),
+        S(items=[F('a', 1), F('a', 2)], distinct='count', top=('LIMIT', 1)), S(items=[F('a', 1)], order={'keys': [F('a', 1)], 'desc': False}, top=('LIMIT', 1)), S(items=[F('a', 1)], distinct='distinct', top=('TOP', 1)), S(items=[('alias', F('a', 1), 'first', 'AS'), ('alias', ('cat', F('a', 1), F('a', 2)), 'both', 'as')]),
         S(items=[F('a', 1), F('a', 2)], distinct='count'),
         {'kind': 'update', 'assign': [(F('a', 2), ('lit', 'U'))], 'where': w, 'join': None}, {'kind': 'update', 'assign': [(F('a', 1), ('cat', F('a', 1), F('a', 3)))], 'where': None, 'join': None},
         {'kind': 'update', 'assign': [(F('a', 2), F('b', 2))], 'where': None, 'join': J('JOIN')},
@@ -450,7 +452,7 @@ def main(tier, seed):
             shards.append({'part': part, 'shard': i, 'nshards': n})
     res = core.run_shards('vf.checks.c13', shards)
     return core.finish(PID, tier, seed, res, t0,
-        rule='26 queries x 3 tables x {header, no header} (+ named-column queries) through 6 library entry points (query_table, query with Table* classes, query with own plain classes, query_csv, pandas, sqlite->csv), '
+        rule='34 queries x 3 tables x {header, no header} (+ named-column queries) through 6 library entry points (query_table, query with Table* classes, query with own plain classes, query_csv, pandas, sqlite->csv), '
              'the CLI in-process under 6 configurations x {file, stdin->stdout} with special-cell tables for explicit policies, and real `python -m rbql` subprocesses rotating over all configurations; non-trivial = a successful run that agrees with RefQL',
         assumptions=['results are compared after str(); expressions are type-agnostic over string cells', 'child processes run with PYTHONWARNINGS=ignore (Python 3.12 prints its own SyntaxWarning when compiling rbql_engine.py from source)'],
         extra={'cli_configurations': [c[:3] for c in CLI_CFGS]},
